@@ -59,6 +59,13 @@ module Pos =
   | Coq_xO p -> Coq_xI (pred_double p)
   | Coq_xH -> Coq_xH
 
+  (** val pred_N : positive -> coq_N **)
+
+  let pred_N = function
+  | Coq_xI p -> Npos (Coq_xO p)
+  | Coq_xO p -> Npos (pred_double p)
+  | Coq_xH -> N0
+
   type mask = Pos.mask =
   | IsNul
   | IsPos of positive
@@ -229,6 +236,12 @@ module Pos =
     | Coq_xH -> (match q with
                  | Coq_xO _ -> N0
                  | _ -> Npos Coq_xH)
+
+  (** val shiftl : positive -> coq_N -> positive **)
+
+  let shiftl p = function
+  | N0 -> p
+  | Npos n0 -> iter (fun x -> Coq_xO x) p n0
 
   (** val iter_op : ('a1 -> 'a1 -> 'a1) -> positive -> 'a1 -> 'a1 **)
 
